@@ -333,6 +333,10 @@ func (g *registry) dval(v driver.Value) string {
 }
 
 func (g *registry) src(v interface{}) string {
+	switch x := v.(type) { // an integer source reaches float / string fields through its decimal text
+	case int8, int16, int32, int64, uint64:
+		g.strs[fmt.Sprint(x)] = true
+	}
 	switch x := v.(type) {
 	case nil:
 		return "SNull"
@@ -1366,8 +1370,10 @@ func pfieldTerm(g *registry, f *thunderpb.Field) string {
 	case thunderpb.FieldKind_Bool:
 		return "(PBool " + vh.CoqBool(f.GetBool()) + ")"
 	case thunderpb.FieldKind_Int:
+		g.strs[fmt.Sprint(f.GetInt())] = true
 		return "(PInt " + vh.CoqZ(f.GetInt()) + ")"
 	case thunderpb.FieldKind_Uint:
+		g.strs[fmt.Sprint(f.GetUint())] = true
 		return "(PUint " + zU(f.GetUint()) + ")"
 	case thunderpb.FieldKind_String:
 		return "(PStr " + g.str(f.GetString_()) + ")"
